@@ -608,7 +608,7 @@ func runChatE2E(c *Case) {
 		m := r.Pick(1, 3, 5, 7, 7, 7, 8, 6, 2, 0)
 		name := textBytes(r, r.Pick(1, 4, 9, 13, 14, 20))
 		icon := be16(r.Intn(500))
-		wc, err := ts.LoginOK(fmt.Sprintf("10.1.0.%d:5000", len(clients)+1), fmt.Sprintf("u%d", m), "", nil,
+		wc, err := loginWire(ts, fmt.Sprintf("10.1.0.%d:5000", len(clients)+1), fmt.Sprintf("u%d", m), "",
 			fld(hotline.FieldUserName, name), fld(hotline.FieldUserIconID, icon))
 		if err != nil {
 			c.Note("login_error", err.Error())
@@ -636,7 +636,7 @@ func runChatE2E(c *Case) {
 		x.nreq++
 		id := 1 + x.nreq // ids below 1000 are the harness's own (login = 1, barriers); requests of the history start at 1001
 		x.wc.Conn.Feed(encTran(mkTran(hotline.TranKeepAlive, id)))
-		_, ok := x.wc.ReplyTo(id, 10*time.Second)
+		_, ok := x.wc.ReplyTo(id, longWait)
 		return ok
 	}
 	n := 3 + r.Intn(4)
@@ -656,15 +656,15 @@ func runChatE2E(c *Case) {
 		send := func(t hotline.Transaction, wantReply bool) *hotline.Transaction {
 			actor.wc.Conn.Feed(encTran(t))
 			if wantReply {
-				rep, ok := actor.wc.ReplyTo(tranID(&t), 10*time.Second)
+				rep, ok := actor.wc.ReplyTo(tranID(&t), longWait)
 				if !ok {
-					fail("e2e-no-reply", fmt.Sprintf("request type %d got no reply within 10 s", tranType(&t)))
+					fail("e2e-no-reply", fmt.Sprintf("request type %d got no reply in time", tranType(&t)))
 					return nil
 				}
 				return rep
 			}
 			if !barrier(actor) {
-				fail("e2e-no-reply", "keep-alive after a request got no reply within 10 s")
+				fail("e2e-no-reply", "keep-alive after a request got no reply in time")
 			}
 			return nil
 		}
@@ -753,7 +753,7 @@ func runChatE2E(c *Case) {
 		}
 		return got, err, rest
 	}
-	waitFor(10*time.Second, func() bool {
+	waitFor(longWait, func() bool {
 		for _, x := range clients {
 			got, _, _ := collect(x)
 			if len(got) < len(want[x.conn]) {
@@ -776,12 +776,51 @@ func runChatE2E(c *Case) {
 		x.wc.Conn.EOF()
 	}
 	for _, x := range clients {
-		x.wc.WaitDone(5 * time.Second)
+		x.wc.WaitDone(longWait)
 	}
 	if len(chats) > 0 {
 		c.Nontrivial("e2e " + strings.Join(evs, " "))
 	}
 	c.Dist("e2e/run")
+}
+
+// runStaleMemberObservation documents (it does not judge) what DESIGN §15 describes: the member map keeps a
+// disconnected member, so once the 16-bit id space has wrapped a newcomer that is handed the departed member's id
+// is addressed by that chat's traffic.  The delivery theorems exclude this by the hypothesis NoStaleReuse
+// (proved for histories below 65 536 events); the outcome is recorded in the evidence as an observation.
+func runStaleMemberObservation(c *Case) {
+	ts, err := newTS(TSOpt{Direct: true, Accounts: c12Accounts()})
+	if err != nil {
+		panic(err)
+	}
+	defer ts.Close()
+	a, _ := ts.DirectClient("u7", []byte("alice"), "10.0.9.1:1")
+	b, _ := ts.DirectClient("u7", []byte("bob"), "10.0.9.2:1")
+	res, _, _ := callSync(ts, a, mkTran(hotline.TranInviteNewChat, 1001, fld(hotline.FieldUserID, b.ID[:])))
+	var chat []byte
+	for i := range res {
+		if res[i].IsReply == 1 {
+			chat, _ = fieldOf(&res[i], 114)
+		}
+	}
+	if len(chat) != 4 {
+		c.Disagree("observation-setup", "could not create a chat for the id-reuse observation")
+		return
+	}
+	callSync(ts, b, mkTran(hotline.TranJoinChat, 1002, fld(hotline.FieldChatID, chat)))
+	disconnectSync(ts, b)
+	// 65 534 further connections later (emulated by moving the counter) the id of the departed member is handed out again
+	ts.Srv.ClientMgr.(*hotline.MemClientMgr).VerifSetNextClientID(uint32(65535 + 65536*c.R.Intn(3)))
+	n, _ := ts.DirectClient("u1", []byte("newcomer"), "10.0.9.3:1")
+	res, _, _ = callSync(ts, a, mkTran(hotline.TranChatSend, 1003, fld(hotline.FieldData, []byte("secret")), fld(hotline.FieldChatID, chat)))
+	reached := false
+	for i := range res {
+		if ts.Srv.ClientMgr.Get(res[i].ClientID) == n {
+			reached = true
+		}
+	}
+	c.Dist(fmt.Sprintf("observation/newcomer-with-reissued-id=%v-receives-private-line=%v", n.ID == b.ID, reached))
+	c.Nontrivial(fmt.Sprintf("stale %d", c.R.Intn(1<<30)))
 }
 
 func init() {
@@ -792,7 +831,7 @@ func init() {
 			"histories are sequential (one request is handled at a time); concurrent schedules are C14's subject",
 			"fewer than 65 535 connections per run, so no user id is reissued while a chat still lists its previous holder (DESIGN §15; C13 covers the id space)",
 		}
-		x.Add(&Family{Name: "gofmt", Quick: 6000, Thor: 300000, Run: func(c *Case) {
+		x.Add(&Family{Name: "gofmt", Quick: 4000, Thor: 150000, Run: func(c *Case) {
 			r := c.R
 			name := c12Name(r)
 			if len(name) > 200 {
@@ -827,7 +866,8 @@ func init() {
 			}
 			c.Dist(fmt.Sprintf("gofmt/runes<=13:%v", len(got) == len(ref) && len(name) <= 13))
 		}})
-		x.Add(&Family{Name: "chat-history", Quick: 5000, Thor: 180000, Run: runChatHistory})
-		x.Add(&Family{Name: "chat-e2e", Quick: 24, Thor: 1800, Run: runChatE2E})
+		x.Add(&Family{Name: "chat-history", Quick: 3000, Thor: 60000, Run: runChatHistory})
+		x.Add(&Family{Name: "chat-e2e", Quick: 16, Thor: 600, Run: runChatE2E})
+		x.Add(&Family{Name: "stale-member-observation", Quick: 3, Thor: 10, Run: runStaleMemberObservation})
 	}
 }
